@@ -27,6 +27,7 @@ HANDLERS = dict(pkg="./server", test="TestVerifHandlersNil", name="handlers", di
 FINDMISSING = dict(pkg="./cache/disk", test="TestVerifFindMissing", name="findmissing", diff=True)
 FMQUEUE = dict(pkg="./cache/disk", test="TestVerifFindMissingStalledBackend", name="fmqueue", diff=False)
 FAILFASTPARK = dict(pkg="./cache/disk", test="TestVerifFailFastParkedWorker", name="failfastpark", diff=False)
+CANCELLED = dict(pkg="./cache/disk", test="TestVerifCancelledRequests", name="cancelled", diff=False)
 INTERLEAVED = dict(pkg="./cache/disk", test="TestVerifInterleavedReaders", name="interleaved", diff=False)
 LOOKUPRACE = dict(pkg="./cache/disk", test="TestVerifConcurrentLookups", name="lookuprace", diff=False, race="always")
 FFRACE = dict(pkg="./cache/disk", test="TestVerifFailFastManyMisses", name="ffrace", diff=False, race="always")
@@ -80,7 +81,7 @@ TECH = "Lean 4 theorems over an executable model + regenerated Gen/Bridge facts 
 
 PROPS = {
     "C03": dict(
-        lean="BR.Props.C03", runs=[LRU, F14, DISK, SCHED], trusted_base=COMMON_TB,
+        lean="BR.Props.C03", runs=[LRU, F14, DISK, SCHED, CANCELLED], trusted_base=COMMON_TB,
         assumptions=["item sizes and max_size below 2^62 so that roundUp4k and Add's additions do not wrap int64"],
         level_text="Invariant (currentSize = reserved + sum of 4 KiB-rounded entries <= maxSize, logical total, entry count) proved by induction for every finite sequence of LRU operations of model M1; model checked against SizedLRU op by op.",
         level_note=NOTE + "concurrency enters through the atomic-lock-region assumption.", technique=TECH),
